@@ -1,6 +1,6 @@
 (* DC01.v — dispatch entries of property C01 (point ↦ voxel) and the NewPoint entry shared with C15 *)
 From Coq Require Import ZArith String List Bool Floats.
-From SID Require Import Base Str Ids Wire F64 ExactRef PointF FF PointCheck.
+From SID Require Import Base Str Ids Wire F64 ExactRef PointF FF XF PointCheck.
 Import ListNotations.
 Open Scope string_scope.
 
@@ -25,34 +25,62 @@ Open Scope string_scope.
   (* observed (list, error) against a model result: same error flag, and on success the same list (in order / as a set) *)
   Definition corr_list (ordered : bool) (m : result (list string)) (obs : val) : bool :=
     match m, obs with
-    | Err, VE _ => true
+    | Err, VE p => match as_LS p with Some [] => true | _ => false end     (* Go returns the empty list together with the error *)
     | Ok l, _ => match (if is_err obs then None else as_LS obs) with
                  | Some o => if ordered then same_list l o else same_set l o
                  | None => false end
     | _, _ => false
     end.
 
-  (* the C01 checker on observed IDs (check_point_id / check_point_ids) is defined in PointCheck.v and proved sound in PointProofs.v *)
-  (* finding classes, evaluated only when the model agrees with the code and the checker rejects the output:
-     alt_underflow — the altitude is in the class of FF.alt_underflow (decided on the input by alt_underflow_b) and the model's f differs
-                     from the exact floor;
-     x_rounding    — the model's x differs from the exact floor; by XF.x_f_exact_outside_class this happens only for inputs of the class
-                     XF.x_rounding (exact position within 2^(h-52) columns of a column boundary).
-     Anything else that the checker rejects stays unclassified ("-") and is reported as a violation. *)
-  Definition class_point (p : point) (h v : Z) : string :=
-    match x_f (plon p) h, exact_x (plon p) h, f_f (palt p) v, exact_f (palt p) v with
-    | Some x, Some x', Some f, Some f' =>
-        if negb (f =? f')%Z then (if alt_underflow_b (palt p) v then "alt_underflow" else "-")
-        else if negb (x =? x')%Z then "x_rounding" else "-"
-    | _, _, _, _ => "-"
-    end.
-  Fixpoint class_points (ps : list point) (h v : Z) : string :=
-    match ps with
-    | [] => "-"
-    | p :: r => let c := class_point p h v in if String.eqb c "-" then class_points r h v else c
-    end.
+  (* The C01 checker on observed IDs (check_point_id / check_point_ids) is defined in PointCheck.v and proved sound in PointProofs.v.
+     Here every point of a case gets its own verdict, conjunct by conjunct:
+       "ok"            all conjuncts hold: requested zooms, x = exact floor, f = exact floor, 0 <= y < 2^h, 0 <= x < 2^h, f inside
+                       -2^v .. 2^v (f = 2^v only for alt = 2^25 exactly, the closed top edge)
+       "x_rounding"    ONLY x differs from the exact floor, by one column, and the input is in the class XF.x_rounding, decided on the
+                       input by x_rounding_b (exact position within 2^(h-52) columns of a column boundary; x_rounding_b_spec)
+       "alt_underflow" ONLY f (and possibly a classed x) differs and the input is in FF.alt_underflow, decided by alt_underflow_b
+       "fail"          anything else: a y outside its range, wrong zooms, malformed ID, an unclassed x or f, f outside its range ...
+       "ood"           the point is outside the domain on which the model is claimed to follow the code (see in_domain_point)
+     A case is counted under a finding class only if the model agrees with the code, no point is "fail" and at least one is classed;
+     a classed x never excuses a failing y, f, zoom or format conjunct of the same or of another point. *)
   Definition in_domain_point (p : point) : bool :=
-    (abs (plon p) <=? 180)%float && (abs (plat p) <=? c_latmax)%float && (abs (palt p) <=? pow2f 25)%float.
+    (abs (plon p) <=? 180)%float && (abs (plat p) <=? c_latmax)%float && (abs (palt p) <=? pow2f 40)%float.
+  Definition f_range_ok (p : point) (v f : Z) : bool :=
+    if (abs (palt p) <=? pow2f 25)%float
+    then (- 2 ^ v <=? f)%Z && ((f <? 2 ^ v)%Z || ((f =? 2 ^ v)%Z && (palt p =? pow2f 25)%float))
+    else true.
+  Definition point_res (p : point) (h v : Z) (s : string) : string :=
+    if negb (in_domain_point p) then "ood"
+    else match parse_eid s, exact_x (plon p) h, exact_f (palt p) v with
+         | Some i, Some x, Some f =>
+             let base := (eh i =? h)%Z && (ev i =? v)%Z && (0 <=? ey i)%Z && (ey i <? 2 ^ h)%Z && (0 <=? ex i)%Z && (ex i <? 2 ^ h)%Z &&
+                         f_range_ok p v (ef i) in
+             let xok := (ex i =? x)%Z in let fok := (ef i =? f)%Z in
+             if negb base then "fail"
+             else if xok && fok then (if check_point_id p h v s then "ok" else "fail")
+             else
+               let xcl := xok || (x_rounding_b (plon p) h && (Z.abs (ex i - x) <=? 1)%Z) in
+               let fcl := fok || alt_underflow_b (palt p) v in
+               if xcl && fcl then (if fok then "x_rounding" else "alt_underflow") else "fail"
+         | _, _, _ => "fail"
+         end.
+  Fixpoint points_res (ps : list point) (h v : Z) (o : list string) : list string :=
+    match ps, o with
+    | [], [] => []
+    | p :: ps', s :: o' => point_res p h v s :: points_res ps' h v o'
+    | _, _ => ["fail"]          (* different lengths *)
+    end.
+  Definition has (c : string) (l : list string) : bool := existsb (String.eqb c) l.
+  Definition first_class (l : list string) : string :=
+    match find (fun c => negb (String.eqb c "ok")) l with Some c => c | None => "-" end.
+  (* observed list of one call -> per-point verdicts (spatial-ID form: converted back to the extended form first) *)
+  Definition obs_res (sid : bool) (ps : list point) (h v : Z) (o : val) : list string :=
+    match (if is_err o then None else as_LS o) with
+    | Some l => if sid then match sids_to_eids l with Ok e => points_res ps h h e | Err => ["fail"] end
+                else points_res ps h v l
+    | None => ["fail"]
+    end.
+  Definition err_empty (o : val) : bool := match o with VE p => match as_LS p with Some [] => true | _ => false end | _ => false end.
 
   Definition d_points (oracle : oracle_t) (sid : bool) (args : list val) (obs : val) : verdict :=
     match args with
@@ -63,21 +91,29 @@ Open Scope string_scope.
             let m := if sid then points_sid_api tanf cosf logf has_nil ps h else points_api tanf cosf logf has_nil ps h v in
             let corr := corr_list true m obs in
             let expect_err := negb (check_zoom h && check_zoom v) || has_nil in
-            let prop :=
-              if expect_err then is_err obs
-              else if negb (forallb in_domain_point ps) then true     (* outside the documented domain nothing is claimed *)
-              else match (if is_err obs then None else as_LS obs) with
-                   | Some o =>
-                       if sid then match sids_to_eids o with Ok e => check_point_ids ps h v e | Err => false end
-                       else check_point_ids ps h v o
-                   | None => false end in
-            let cls := if corr && negb prop then class_points ps h v else "-" in
-            mkv corr prop cls (res_strings m)
+            if expect_err then mkv corr (err_empty obs) "-" (res_strings m)
+            else
+              let r := obs_res sid ps h v obs in
+              if has "ood" r then bad_case      (* outside the domain of the model: not generated; never scored as a pass *)
+              else
+                let prop := forallb (String.eqb "ok") r in
+                let cls := if corr && negb prop && negb (has "fail" r) then first_class r else "-" in
+                mkv corr prop cls (res_strings m)
         | None => bad_case
         end
     | _ => bad_case
     end.
 
+  (* -2^-46 <= |lat| - |stored| <= 1e-10 + 2^-46, decided exactly on the dyadic values (all quantities scaled by 10^10 * 2^k) *)
+  Definition cut_band_ok (lat stored : float) : bool :=
+    match dyadic lat, dyadic stored with
+    | Some (a, ea), Some (b, eb) =>
+        let e := Z.min (Z.min ea eb) (-46) in
+        let d := Z.abs a * 2 ^ (ea - e) - Z.abs b * 2 ^ (eb - e) in          (* cut = d * 2^e, e <= -46 *)
+        let eps := 2 ^ (-46 - e) in                                          (* 2^-46 = eps * 2^e *)
+        (- eps <=? d)%Z && ((d - eps) * 10 ^ 10 <=? 2 ^ (- e))%Z
+    | _, _ => false
+    end.
   (* NewPoint: observed = [lon; lat; alt] of the returned object, wrapped in VE when an error was returned *)
   Definition check_new_point (lon lat alt : float) (obs : val) : bool :=
     let bad := (180 <? abs lon)%float || (c_latmax <? abs (setlat_trunc lat))%float in
@@ -99,9 +135,16 @@ Open Scope string_scope.
                     | VL [VF a; VF b; VF c], false => feqb_bits a (plon p) && feqb_bits b (plat p) && feqb_bits c (palt p)
                     | _, _ => false end in
         let prop := check_new_point lon lat alt obs in
-        (* class setlat_inexact, decided on the input: the bit-exact model's own cut |lat| - |stored| is outside [0, 1e-10) *)
+        (* class setlat_inexact excuses ONLY the cut conjunct: longitude and altitude stored unchanged, same sign, no error, the input
+           is in the class (decided on the input through the bit-exact model: its own cut |lat| - |stored| is outside [0, 1e-10)),
+           and the observed cut is still inside the proved band [-2^-46, 1e-10 + 2^-46] (SetLatProofs.setlat_cut_bounds) *)
         let inexact := negb e && negb (exact_cut_ok lat (setlat_trunc lat)) in
-        mkv corr prop (if corr && negb prop && inexact then "setlat_inexact" else "-") m
+        let rest_ok := match obs with
+                       | VL [VF a; VF b; VF c] =>
+                           feqb_bits a lon && feqb_bits c alt && cut_band_ok lat b &&
+                           ((0 <=? lat)%float && (0 <=? b)%float || (lat <=? 0)%float && (b <=? 0)%float)
+                       | _ => false end in
+        mkv corr prop (if corr && negb prop && inexact && rest_ok then "setlat_inexact" else "-") m
     | _ => bad_case
     end.
 
@@ -120,29 +163,39 @@ Open Scope string_scope.
     | _, _ => bad_case
     end.
 
-  (* PointMoveSequence: one *object.Point converted, then moved with SetLon/SetLat/SetAlt and converted again through the same pointer.
-     args = [stored triple 1; requested triple 2; h; v; spatial-ID form?]; observed = [ids1; ids2; triple stored after the move].
-     The model maps the pure function over the two stored triples (the second one as read back from the object) and predicts the
-     stored triple itself with the NewPoint model. *)
+  (* PointMoveSequence: the SAME *object.Point objects are converted, then moved with SetLon/SetLat/SetAlt and converted again through
+     the same pointers. args = [stored triples 1; requested triples 2; h; v; spatial-ID form?];
+     observed = [ids1; ids2; triples stored after the move]. The model maps the pure function over the stored triples (the second
+     list as read back from the objects) and predicts the stored triples themselves with the NewPoint model. *)
+  Fixpoint as_plist (l : list val) : option (list point) :=
+    match l with
+    | [] => Some []
+    | v :: r => match as_point v, as_plist r with Some p, Some t => Some (p :: t) | _, _ => None end
+    end.
+  Fixpoint stored_match (req st : list point) : bool :=
+    match req, st with
+    | [], [] => true
+    | r :: req', s :: st' =>
+        let '(n, e) := new_point (plon r) (plat r) (palt r) in
+        negb e && feqb_bits (plon s) (plon n) && feqb_bits (plat s) (plat n) && feqb_bits (palt s) (palt n) && stored_match req' st'
+    | _, _ => false
+    end.
   Definition d_move (oracle : oracle_t) (args : list val) (obs : val) : verdict :=
     match args, obs with
-    | [a1; a2; VZ h; VZ v; VB sid], VL [o1; o2; st] =>
-        match as_point a1, as_point a2, as_point st with
+    | [VL a1; VL a2; VZ h; VZ v; VB sid], VL [o1; o2; VL st] =>
+        match as_plist a1, as_plist a2, as_plist st with
         | Some p1, Some r2, Some s2 =>
             let tanf := ofun oracle "tan" in let cosf := ofun oracle "cos" in let logf := ofun oracle "log" in
-            let api := fun p => if sid then points_sid_api tanf cosf logf false [p] h else points_api tanf cosf logf false [p] h v in
-            let '(n2, e2) := new_point (plon r2) (plat r2) (palt r2) in
-            let stored_ok := negb e2 && feqb_bits (plon s2) (plon n2) && feqb_bits (plat s2) (plat n2) && feqb_bits (palt s2) (palt n2) in
-            let corr := corr_list true (api p1) o1 && corr_list true (api s2) o2 && stored_ok in
-            let chk := fun p o =>
-              if negb (in_domain_point p) then true
-              else match (if is_err o then None else as_LS o) with
-                   | Some l => if sid then match sids_to_eids l with Ok e => check_point_ids [p] h h e | Err => false end
-                               else check_point_ids [p] h v l
-                   | None => false end in
-            let prop := if negb (check_zoom h && check_zoom v) then false else chk p1 o1 && chk s2 o2 in
-            let cls := if corr && negb prop then class_points [p1; s2] h (if sid then h else v) else "-" in
-            mkv corr prop cls (VL [res_strings (api p1); res_strings (api s2); of_point n2])
+            let api := fun ps => if sid then points_sid_api tanf cosf logf false ps h else points_api tanf cosf logf false ps h v in
+            let corr := corr_list true (api p1) o1 && corr_list true (api s2) o2 && stored_match r2 s2 in
+            if negb (check_zoom h && check_zoom v) then bad_case
+            else
+              let r := (obs_res sid p1 h v o1 ++ obs_res sid s2 h v o2)%list in
+              if has "ood" r then bad_case
+              else
+                let prop := forallb (String.eqb "ok") r in
+                let cls := if corr && negb prop && negb (has "fail" r) then first_class r else "-" in
+                mkv corr prop cls (VL [res_strings (api p1); res_strings (api s2)])
         | _, _, _ => bad_case
         end
     | _, _ => bad_case
